@@ -158,7 +158,7 @@ def run_length_on_stride(spec):
         return False
     dm = S.derived_by_name(spec)
     for c in S.all_constraints(spec["block"]):
-        if c["kind"] in ("atmost", "atleast", "exactly_row") and c.get("factor") in dm and S.window_of(dm[c["factor"]])[1] > 1:
+        if c.get("kind") in ("atmost", "atleast", "exactly_row") and c.get("factor") in dm and S.window_of(dm[c["factor"]])[1] > 1:
             return True
     return False
 
